@@ -374,13 +374,27 @@ fn into_asn<C: Context<Primary = Type>>(ty: &syn::Type, mut asn: AsnAttribute<C>
         r#type: if let Type::TypeReference(_, empty_tag) = asn.primary {
             Type::TypeReference(quote! { #ty }.to_string(), empty_tag.or(asn.tag))
         } else {
-            if let Type::Integer(int) = asn.primary.no_optional_mut() {
-                asn.consts
+            // the constants belong to the innermost type, which might be optional or default
+            let mut inner = asn.primary.no_optional_mut();
+            if let Type::Default(default_inner, _) = inner {
+                inner = default_inner.no_optional_mut();
+            }
+            match inner {
+                Type::Integer(int) => asn
+                    .consts
                     .into_iter()
                     .map(|c| match c {
                         ConstLit::I64(name, value) => (name, value),
                     })
-                    .for_each(|v| int.constants.push(v));
+                    .for_each(|v| int.constants.push(v)),
+                Type::BitString(bit_string) => asn
+                    .consts
+                    .into_iter()
+                    .map(|c| match c {
+                        ConstLit::I64(name, value) => (name, value as u64),
+                    })
+                    .for_each(|v| bit_string.constants.push(v)),
+                _ => {}
             }
             asn.primary
         },
